@@ -36,18 +36,33 @@ def _cells_ok(t):
         # there is no i-th row to compare; whether iterating a zero-row table may raise
         # (it does on this code base: empty columns have no dtype) is not fixed by the statement
         return None
-    it_rows = []
-    it_sliced = []
+    if n <= 5000:
+        sampled = range(n)
+    else:
+        # long tables: every row is iterated and counted, the cell-by-cell comparison is made on the
+        # ends, on the neighbourhood of every power of two and on an even spread (deterministic)
+        pick = set(range(64)) | set(range(n - 64, n)) | set(range(0, n, max(1, n // 256)))
+        p = 64
+        while p < n:
+            pick.update(i for i in (p - 1, p, p + 1) if 0 <= i < n)
+            p *= 2
+        sampled = sorted(pick)
+    in_sample = set(sampled)
+    it_rows = {}
+    it_sliced = {}
+    count = 0
     for row in t:
-        it_rows.append([V.tv(x) for x in row])
-        try:
-            it_sliced.append([V.tv(x) for x in row[:]])     # a vector-level read of the same row
-        except Exception as ex:
-            it_sliced.append(None)
-            ex = None
-    if len(it_rows) != n:
-        return ("C02/row-col-mismatch", "iteration yields %d rows, len is %d" % (len(it_rows), n), {"how": "iter-count"})
-    for i in range(n):
+        if count in in_sample:
+            it_rows[count] = [V.tv(x) for x in row]
+            try:
+                it_sliced[count] = [V.tv(x) for x in row[:]]     # a vector-level read of the same row
+            except Exception as ex:
+                it_sliced[count] = None
+                ex = None
+        count += 1
+    if count != n:
+        return ("C02/row-col-mismatch", "iteration yields %d rows, len is %d" % (count, n), {"how": "iter-count"})
+    for i in sampled:
         want_row = [cv[i] for cv in colvals]
         got = [V.tv(x) for x in t[i]]
         if got != want_row:
